@@ -15,7 +15,6 @@
 package immutable
 
 import (
-	"container/heap"
 	"path/filepath"
 	"time"
 
@@ -174,7 +173,7 @@ func (mt *mergeTool) execute(mst string, order, unordered *TSSPFiles) (*TSSPFile
 		performers.Close()
 	})
 
-	heap.Init(performers)
+	performers.init()
 	for {
 		if performers.Len() == 0 {
 			break
